@@ -793,6 +793,18 @@ def _gen_c12(rng):
                     ops[-1]["idx_fault"] = True
             else:
                 ops.append({"op": "ext_delete", "labels": rng.sample(closed, rng.randint(1, min(3, len(closed))))})
+        if len(tlabels) >= 2 and rng.random() < 0.3:
+            # round 7 motif: one directory is delivered and indexed, then it and all its files vanish from the
+            # destination (collected by somebody else); the next request is about ANOTHER directory, which may
+            # share files with the vanished one - the index must not vouch for them
+            ta, tb = rng.sample(tlabels, 2)
+            ca = sorted({ta} | set(children[ta]))
+            cb = sorted({tb} | set(children[tb]))
+            ops.append({"op": "transfer", "ids": ca, "fail": []})
+            ops.append({"op": "ext_delete", "labels": ca})
+            ops.append({"op": rng.choice(["status", "compare"]), "on": "dest", "ids": cb, "shallow": True, "check_deleted": True})
+            ops.append({"op": "transfer", "ids": cb, "fail": []})
+            ops.append({"op": "status", "on": "dest", "ids": cb, "shallow": True})
     sc.update(src=sorted(src), dest=sorted(dest), ops=ops, corrupt={})
     sc["fault_kinds"] = {lab: _fault_for(rng, cfg) for lab in all_labels}
     return sc
